@@ -58,6 +58,9 @@ def gen(rng, tier):
     cases = file_cases(rng, tier)
     for f, t in FORCED[:12]:
         cases.append({"f": f, "t": t, "argv": rng.choice(OPTS)})
+    # the same coloured comparison 320 times in one process (defect D17 needed about 248 colour printers)
+    cases.append({"f": {"a": [1, 2, "x"], "b": True}, "t": {"a": [1, 3, "xy"], "c": None}, "argv": ["--color"], "many": 320})
+    cases.append({"f": [1, 2, 3], "t": [1, 3], "argv": ["--color", "-e"], "many": 320})
     # documents rich in mappings with many keys missing on either side (set/dict iteration order matters there)
     keys = ["alpha", "beta", "gamma", "delta", "eps", "zeta", "eta", "theta", "iota", "kappa", "lam", "mu"]
     for _ in range(n // 3):
@@ -119,7 +122,12 @@ def _impl_file(case):
     b = a if case.get("same") else matrix.content(kind, 2, ds)
     files = {"a." + ext: {"b64": base64.b64encode(a).decode()}, "b." + ext: {"b64": base64.b64encode(b).decode()}}
     argv = ["--from-" + kind, "--to-" + kind, "--no-status"] + case["argv"] + ["a." + ext, "b." + ext]
-    r1, r2 = clirun.run_case(files, [{"argv": argv}, {"argv": argv}])
+    many = int(case.get("many", 2))
+    rs = clirun.run_case(files, [{"argv": argv}] * many)
+    r1 = rs[0]
+    # the first later call that differs from the first one (the 2nd for ordinary cases; "many": the same command a few
+    # hundred times in ONE process - state that accumulates per call, e.g. one colorama wrapper per colour printer)
+    r2 = next((r for r in rs[1:] if (r["rc"], r["out"], r["exc"]) != (r1["rc"], r1["out"], r1["exc"])), rs[-1])
     mutated = None
     # purity on the trees of this input type: diff() / get_all_edits() must not alter them
     d = tempfile.mkdtemp(prefix="gtverif_")
@@ -159,7 +167,29 @@ def impl(case):
     ext = case.get("ext", "json")
     files = {"a." + ext: {"text": json.dumps(case["f"])}, "b." + ext: {"text": json.dumps(case["t"])}}
     argv = ["--no-status"] + case["argv"] + ["a." + ext, "b." + ext]
-    r1, r2 = clirun.run_case(files, [{"argv": argv}, {"argv": argv}])
+    many = int(case.get("many", 2))
+    rs = clirun.run_case(files, [{"argv": argv}] * many)
+    r1 = rs[0]
+    # the first later call that differs from the first one (the 2nd for ordinary cases; "many": the same command a few
+    # hundred times in ONE process - state that accumulates per call, e.g. one colorama wrapper per colour printer)
+    r2 = next((r for r in rs[1:] if (r["rc"], r["out"], r["exc"]) != (r1["rc"], r1["out"], r1["exc"])), rs[-1])
+    printers_exc = None
+    if many > 2:
+        # the library route: that many colour printers on ONE unchanged sys.stdout, then a write through it
+        import io, sys
+        from graphtage.printer import Printer
+        saved = (sys.stdout, sys.stderr)
+        try:
+            sys.stdout, sys.stderr = io.StringIO(), io.StringIO()
+            try:
+                for _ in range(many):
+                    Printer(ansi_color=True)
+                sys.stdout.write("x")
+                sys.stderr.write("x")
+            except BaseException as e:      # RecursionError
+                printers_exc = type(e).__name__
+        finally:
+            sys.stdout, sys.stderr = saved
     # purity: diff() must not alter its inputs
     o = graphtage.BuildOptions(allow_key_edits="-k" not in case["argv"])
     mutated = None
@@ -187,7 +217,7 @@ def impl(case):
         mutated = "EXC:" + type(e).__name__
     return {"rc": r1["rc"], "exc": r1["exc"], "sha": hashlib.sha256(r1["out"].encode("utf-8", "surrogatepass")).hexdigest(),
             "len": len(r1["out"]), "head": r1["out"][:300], "twice_same": (r1["rc"], r1["out"], r1["exc"]) == (r2["rc"], r2["out"], r2["exc"]),
-            "mutated": mutated}
+            "mutated": mutated, "printers_exc": printers_exc}
 
 
 def key_suffix(case, obs):
@@ -215,6 +245,8 @@ def monitor(case, obs):
         hits.append({"prop": "C07", "key": "repeat-differs" + key_suffix(case, obs), "what": "two invocations in one process produced different output or exit status; first output starts " + repr(obs.get("head", "")[:160])})
     if obs["mutated"]:
         hits.append({"prop": "C07", "key": "inputs-mutated:" + str(obs["mutated"]), "what": f"diff()/get_all_edits() altered the {obs['mutated']} tree it was given"})
+    if obs.get("printers_exc"):
+        hits.append({"prop": "C07", "key": "many-colour-printers:" + str(obs["printers_exc"]), "what": f"after creating {case.get('many')} colour printers in one process a write to sys.stdout raises {obs['printers_exc']}: the process keeps state from one comparison to the next"})
     return hits
 
 
